@@ -10,17 +10,21 @@ META = dict(
                "tools.math.wrapped_difference", "NdInterpolator._periodic_data_interpolator / interpolate",
                "interpolate.dataset.interpolate_dataset_along_axis (direction / longitude axes, *direction* variables)",
                "interpolate.general.interpolate_periodic (as called by interpolate_dataframe_time and Track.interpolate)",
-               "interpolate.dataset.interpolate_at_points", "interpolate.dataarray.interpolate_track_data_arrray"],
+               "interpolate.dataset.interpolate_at_points", "interpolate.dataarray.interpolate_track_data_arrray",
+               "interpolate.geometry.Track.interpolate / from_arrays", "interpolate.dataframe.interpolate_dataframe_time"],
     bounds=dict(quick="fully symbolic direction/longitude grids of 3..4 nodes with arbitrary start and every bin < 180 "
                       "degrees, any real target x (so any number of periods away) and x + 360*m for m in {1,-3} (thorough {1,-1,2,-3}); angular data on 2..3 node "
                       "grids; interpolate_periodic on 2..3 samples",
                 thorough="grids of 5 nodes; angular data rank 2"),
     outside=["that the direction of a non-negative combination of two unit vectors lies on the shorter arc between "
              "them (geometry of atan2; the solver proves the combination and the wrapping)",
-             "antipodal neighbours (zero vector)", "complex64 accumulation precision", "pandas/DataFrame plumbing of "
-             "interpolate_dataframe_time (object columns are skipped by the function itself) and SpaceTimePoint/Track "
-             "object construction", "interpolate_at_points: one track point, data of rank 2..3 (time, [latitude,] "
-             "longitude); interpolate_dataset (geometry -> track conversion, pandas) not run"],
+             "antipodal neighbours (zero vector)", "complex64 accumulation precision",
+             "pandas itself: interpolate_dataframe_time reads its input through a minimal frame stand-in (column "
+             "names / values / float dtype) because pandas stores symbols as dtype object, which the function skips; "
+             "the output frame is real pandas", "interpolate_at_points: one track point, data of rank 2..3 (time, "
+             "[latitude,] longitude); interpolate_dataset (geometry -> track conversion) not run",
+             "tracks / data frames: concrete whole-second time stamps (2..3 samples, 7 targets incl. before, on a "
+             "sample, after), symbolic positions / directions"],
     trusted_base=["symx engine", "x % p: fresh integer k with 0 <= x-k*p < p", "atan2/cos/sin uninterpreted"],
     assumptions=["periodic grid strictly increasing within one period, bins narrower than half a period"],
 )
@@ -189,7 +193,7 @@ def case_interpolate_periodic(ctx, n, discont, left_right):
     ctx.check(ctx.And(ctx.le(lo, got), ctx.lt(got, hi)), "D-IP.window", info=f"result in [{lo},{hi})")
 
 
-def case_at_points(ctx, n, m, nlat=1, direction=False, tt_const=None):
+def case_at_points(ctx, n, m, nlat=1, direction=False, tt_const=None, concrete_grid=False):
     """gridded data (time, [latitude,] longitude) interpolated at one track point whose longitude is `m` periods plus
     u away from the grid start (so it can fall into the bin spanning the antimeridian): multilinear between the
     cyclic longitude neighbours and the time (and latitude) neighbours; x and x+360 agree; never missing.
@@ -198,7 +202,11 @@ def case_at_points(ctx, n, m, nlat=1, direction=False, tt_const=None):
     import xarray
     from ocean_science_utilities.interpolate.dataset import interpolate_at_points
     ctx.concretise_mods = True
-    d = _pgrid(ctx, n, "lon")
+    if concrete_grid:
+        g = [C.Fraction(-170) + C.Fraction(360 * k, n) + (7 * k) % 11 for k in range(n)]
+        d = np.array([SR(q) for q in g], dtype=object) if ctx.mode == "sym" else np.array([float(q) for q in g])
+    else:
+        d = _pgrid(ctx, n, "lon")
     u = ctx.real("u")
     ctx.assume(ctx.And(ctx.le(0, u), ctx.lt(u, 360)))
     x = d[0] + 360 * m + u
@@ -275,6 +283,167 @@ def case_at_points(ctx, n, m, nlat=1, direction=False, tt_const=None):
         ctx.check(ctx.implies(ctx.Not(ctx.isnan(got[0])), ctx.eq(got[1], got[0])), "D-AP.shift", div_uf=True)
 
 
+def case_track(ctx, n):
+    """Track.interpolate (drifter track resampled in time): longitude along the shorter arc across the antimeridian,
+    returned in [-180,180); latitude linear; targets before / after the track take the end values. Times are concrete
+    (whole seconds near the epoch, exact in float64), positions symbolic."""
+    import datetime as _dt
+    C.shim_modules(ctx, extra=["ocean_science_utilities.interpolate.geometry"])
+    from ocean_science_utilities.interpolate.geometry import Track, SpaceTimePoint
+    utc = _dt.timezone.utc
+    secs = [0, 10, 30, 70][:n]
+    t0 = _dt.datetime(1970, 1, 2, tzinfo=utc)
+    lat = ctx.reals("lat", n)
+    lon = ctx.reals("lon", n)
+    for i in range(n):
+        ctx.assume(ctx.And(ctx.le(-90, lat[i]), ctx.le(lat[i], 90), ctx.le(-720, lon[i]), ctx.le(lon[i], 720)))
+    pts = [SpaceTimePoint(lat[i], lon[i], "d", t0 + _dt.timedelta(seconds=secs[i])) for i in range(n)]
+    track = Track(pts, "d")
+    targets = [-5, 0, 4, 10, 25, secs[n - 1], secs[n - 1] + 7]
+    out = ctx.noraise("D-TR.noraise", track.interpolate, [t0 + _dt.timedelta(seconds=x) for x in targets])
+    glat, glon = out.latitude, out.longitude
+    ctx.reach("D-TR")
+    ctx.check(len(glat) == len(targets) and len(glon) == len(targets), "D-TR.len",
+              info="one position per target time")
+    for j, x in enumerate(targets):
+        if x <= secs[0]:
+            rlat, rlon = lat[0], lon[0]
+        elif x >= secs[n - 1]:
+            rlat, rlon = lat[n - 1], lon[n - 1]
+        else:
+            k = max(i for i in range(n - 1) if secs[i] <= x)
+            if x == secs[k]:
+                rlat, rlon = lat[k], lon[k]
+            else:
+                w = ctx.frac(x - secs[k], secs[k + 1] - secs[k])
+                dsh = ctx.mod(lon[k + 1] - lon[k] + 180, 360) - 180
+                rlat = lat[k] + (lat[k + 1] - lat[k]) * w
+                rlon = lon[k] + dsh * w
+        ctx.check(ctx.eq(glat[j], rlat), "D-TR.lat", info=dict(target=x, what="latitude linear in time / end value"))
+        ctx.check(ctx.is_multiple(glon[j] - rlon, 360), "D-TR.lon.shortarc",
+                  info=dict(target=x, what="longitude == lon0 + w*d (mod 360), d wrapped into [-180,180)"), div_uf=True)
+        ctx.check(ctx.And(ctx.le(-180, glon[j]), ctx.lt(glon[j], 180)), "D-TR.lon.window",
+                  info=dict(target=x, what="longitude returned in [-180,180)"))
+
+
+class _Col:
+    def __init__(self, values, dtype):
+        self.values, self.dtype = values, dtype
+
+
+class _Frame:
+    """minimal stand-in for the input pandas.DataFrame (sym mode): column names, column values, a float dtype for the
+    symbolic columns (pandas itself would store symbols as dtype object, which the function skips on purpose)"""
+
+    def __init__(self, cols):
+        self._c = cols
+        self.columns = list(cols)
+
+    def __getitem__(self, name):
+        v = self._c[name]
+        return _Col(v, np.dtype(float) if name != "time" else np.asarray(v).dtype)
+
+
+def case_dataframe(ctx, n):
+    """interpolate_dataframe_time: columns whose name contains 'direction' go the short way round and come back in
+    [0,360); other columns are interpolated linearly; targets outside the sampled interval are missing"""
+    import datetime as _dt
+    import pandas as pd
+    C.shim_modules(ctx, extra=["ocean_science_utilities.interpolate.dataframe"])
+    from ocean_science_utilities.interpolate.dataframe import interpolate_dataframe_time
+    secs = [0, 10, 30, 70][:n]
+    t0 = np.datetime64("1970-01-02T00:00:00", "s")
+    time = np.array([t0 + np.timedelta64(x, "s") for x in secs])
+    targets = [-5, 0, 4, 10, 25, secs[n - 1], secs[n - 1] + 7]
+    new_time = np.array([t0 + np.timedelta64(x, "s") for x in targets])
+    dr = ctx.reals("dir", n)
+    hs = ctx.reals("hs", n)
+    cols = {"time": time, "meanDirection": dr, "significantWaveHeight": hs}
+    frame = _Frame(cols) if ctx.mode == "sym" else pd.DataFrame(cols)
+    out = ctx.noraise("D-DF.noraise", interpolate_dataframe_time, frame, new_time)
+    gd = np.asarray(out["meanDirection"].values, dtype=object if ctx.mode == "sym" else float)
+    gh = np.asarray(out["significantWaveHeight"].values, dtype=object if ctx.mode == "sym" else float)
+    ctx.reach("D-DF")
+    for j, x in enumerate(targets):
+        if x < secs[0] or x > secs[n - 1]:
+            ctx.check(ctx.And(ctx.isnan(gd[j]), ctx.isnan(gh[j])), "D-DF.outside", info=dict(target=x))
+            continue
+        k = max(i for i in range(n - 1) if secs[i] <= x)
+        w = ctx.frac(x - secs[k], secs[k + 1] - secs[k])
+        dsh = ctx.mod(dr[k + 1] - dr[k] + 180, 360) - 180
+        ctx.check(ctx.eq(gh[j], hs[k] + (hs[k + 1] - hs[k]) * w), "D-DF.linear",
+                  info=dict(target=x, what="non-angular column linear in time"))
+        ctx.check(ctx.is_multiple(gd[j] - (dr[k] + dsh * w), 360), "D-DF.shortarc",
+                  info=dict(target=x, what="direction column == d0 + w*delta (mod 360), delta in [-180,180)"),
+                  div_uf=True)
+        ctx.check(ctx.And(ctx.le(0, gd[j]), ctx.lt(gd[j], 360)), "D-DF.window",
+                  info=dict(target=x, what="direction column returned in [0,360)"))
+
+
+def case_dataset_tracks(ctx, nvars=2):
+    """interpolate_dataset: gridded (time, latitude, longitude) data with TWO *direction* variables and a scalar one,
+    sampled along a drifter track that sits in the longitude bin spanning the antimeridian. Every direction variable
+    is the angle of the weighted unit-vector sum of its corner values (mod 360, in [0,360)); the scalar variable is
+    multilinear. Track positions / times concrete (weights exact), data symbolic."""
+    import datetime as _dt
+    import xarray
+    C.shim_modules(ctx, extra=["ocean_science_utilities.interpolate.geometry",
+                               "ocean_science_utilities.interpolate.dataarray"])
+    from ocean_science_utilities.interpolate.dataset import interpolate_dataset
+    from ocean_science_utilities.interpolate.geometry import Track, SpaceTimePoint
+    utc = _dt.timezone.utc
+    t0 = _dt.datetime(1970, 1, 2, tzinfo=utc)
+    times = np.array([np.datetime64("1970-01-02T00:00:00", "ns"), np.datetime64("1970-01-02T00:00:10", "ns")])
+    sym = ctx.mode == "sym"
+    mk = (lambda xs: np.array([SR(C.Fraction(x)) for x in xs], dtype=object)) if sym else (lambda xs: np.array(xs, dtype=float))
+    lat = mk([0, 1])
+    lon = mk([0, 120, 240])
+    names = ["meanDirection", "peakDirection"][:nvars] + ["hs"]
+    data = {nm: ctx.reals(nm, (2, 2, 3)) for nm in names}
+    ds = xarray.Dataset({nm: xarray.DataArray(v, dims=("time", "latitude", "longitude"),
+                                              coords={"time": times, "latitude": lat, "longitude": lon})
+                         for nm, v in data.items()})
+    plat, plon = (SR(C.Fraction(1, 4)), SR(C.Fraction(-60))) if sym else (0.25, -60.0)
+    track = Track([SpaceTimePoint(plat, plon, "d", t0), SpaceTimePoint(plat, plon, "d", t0 + _dt.timedelta(seconds=10))], "d")
+    out = ctx.noraise("D-DS.noraise", interpolate_dataset, ds, track)
+    frame = out["track"]
+    log = list(ctx.atan2_log) if sym else None
+    ctx.reach("D-DS")
+    ctx.check(len(frame) == 2, "D-DS.len", info="one row per dataset time")
+    # expected corners for row 0 (time node 0): lat weights 3/4,1/4; lon 300 lies in the wrap bin [240, 360): t = 1/2
+    wl = [(0, ctx.frac(3, 4)), (1, ctx.frac(1, 4))]
+    wk = [(2, ctx.frac(1, 2)), (0, ctx.frac(1, 2))]
+    torad = np.pi * 2 / 360
+    nlog = 0
+    for nm in names:
+        got = frame[nm].values[0]
+        v = data[nm]
+        terms = [(a * b, v[0, il, ik]) for il, a in wl for ik, b in wk]
+        if nm == "hs":
+            ctx.check(ctx.eq(got, sum(w * x for w, x in terms)), "D-DS.linear", info="scalar variable: multilinear")
+            continue
+        re = sum(w * ctx.cos(x * torad) for w, x in terms)
+        im = sum(w * ctx.sin(x * torad) for w, x in terms)
+        ctx.check(ctx.implies(ctx.Not(ctx.isnan(got)), ctx.And(ctx.le(0, got), ctx.lt(got, 360))), "D-DS.dir.range",
+                  info=dict(variable=nm))
+        if sym:
+            # two rows per variable: the code's angle() calls for this variable are log[2*i], log[2*i+1]
+            if len(log) < 2 * (nlog + 1):
+                ctx.check(False, "D-DS.dir.angle", info=dict(variable=nm, what="not interpolated as an angle at all"))
+                continue
+            Y, X, R = log[2 * nlog]
+            nlog += 1
+            atoms = [f(x * torad) for _, x in terms for f in (ctx.cos, ctx.sin)]
+            ctx.check(ctx.And(ctx.eq(ctx.value(Y), im), ctx.eq(ctx.value(X), re)), "D-DS.dir.angle",
+                      info=dict(variable=nm, what="arguments of angle() == weighted sin / cos sums of the corners"),
+                      abstract=atoms, timeout=60000)
+            ang = R * 360 / np.pi / 2
+        else:
+            ang = ctx.atan2(im, re) * 360 / np.pi / 2
+        ctx.check(ctx.implies(ctx.Not(ctx.isnan(got)), ctx.is_multiple(got - ang, 360)), "D-DS.dir.angle",
+                  info=dict(variable=nm, what="angle of the weighted unit-vector sum (mod 360)"))
+
+
 def cases(tier):
     cs = []
     q = tier == "quick"
@@ -300,10 +469,21 @@ def cases(tier):
     for n in ([3] if q else [3, 4]):
         for m in ((0, -2) if q else (0, 1, -2)):
             add("case_at_points", f"atpoints_n{n}_m{m}", n=n, m=m, opts=dict(weight=30))
+    add("case_track", "track_n2", n=2)
+    add("case_dataset_tracks", "dataset_tracks_2dir", nvars=2, opts=dict(weight=30))
+    add("case_dataset_tracks", "dataset_tracks_1dir", nvars=1, opts=dict(weight=30))
+    add("case_dataframe", "dataframe_n2", n=2)
+    add("case_dataframe", "dataframe_n3", n=3, opts=dict(weight=30))
+    add("case_track", "track_n3", n=3, opts=dict(weight=30))
     add("case_at_points", "atpoints_lat_n3", n=3, m=-1, nlat=2, opts=dict(weight=60))
-    add("case_at_points", "atpoints_direction_n3_t14", n=3, m=1, direction=True, tt_const=(1, 4), opts=dict(weight=30))
-    add("case_at_points", "atpoints_direction_n3_t34", n=3, m=-2, direction=True, tt_const=(3, 4), opts=dict(weight=30))
+    # direction variables: concrete (irregular) longitude grid and time weight in the quick tier, symbolic in thorough
+    add("case_at_points", "atpoints_direction_n3_t14", n=3, m=1, direction=True, tt_const=(1, 4), concrete_grid=True,
+        opts=dict(weight=60))
+    add("case_at_points", "atpoints_direction_n3_t34", n=3, m=-2, direction=True, tt_const=(3, 4), concrete_grid=True,
+        opts=dict(weight=60))
     if not q:
+        add("case_at_points", "atpoints_direction_n3_t14_symgrid", n=3, m=1, direction=True, tt_const=(1, 4),
+            opts=dict(weight=60, case_timeout_s=1700))
         add("case_at_points", "atpoints_direction_n3", n=3, m=1, direction=True,
             opts=dict(weight=100, check_timeout_ms=200000, case_timeout_s=1700))
     return cs
